@@ -3,7 +3,7 @@
    EVERY x in dom, the checked-access run f x is neither Crash (an index/slice
    out of range or an explicit panic) nor Hang (fuel = one unit per loop
    iteration, len+1 given). *)
-From V Require Import Common.Base C16.Checked C16.Spec C16.Wtf8 C16.Vlq16 C16.CssNum C16.Pieces C16.Packet C16.CssIdent C16.JsxEntities
+From V Require Import Common.Base C16.Checked C16.Spec C16.Wtf8 C16.Vlq16 C16.CssNum C16.Pieces C16.Packet C16.CssIdent C16.JsxEntities C16.CssLex
   C16.Proofs C16.Vlq16Proofs C16.PanicSites C16.DecodeLoops.
 From V Require Import gen.PanicSitesGen gen.DecodeLoopsGen.
 From Coq Require Import String.
@@ -94,6 +94,30 @@ Print Assumptions decoder_total_RangeOfIdentifier.
 Theorem RangeOfIdentifier_total_refuted_without_end_test : forall fuel, RangeOfIdentifier_fuel false [120] fuel = Hang.
 Proof. exact unguarded_RangeOfIdentifier_hangs. Qed.
 Print Assumptions RangeOfIdentifier_total_refuted_without_end_test.
+
+(* the CSS lexer's cursor: step() stays inside the text, never moves backwards, moves forward
+   unless at the end, where it yields the eof sentinel (what every consumer loop relies on) *)
+Theorem css_lexer_step_progress : forall text l, all_bytes text -> 0 <= cur l <= len text ->
+  exists l', step text l = Ok l' /\ cur l <= cur l' <= len text /\
+             (cur l < len text -> cur l < cur l') /\ (cur l = len text -> cp l' = eof).
+Proof. exact css_step_progress. Qed.
+Print Assumptions css_lexer_step_progress.
+
+(* the CSS lexer's escape / string / url / name consumers (on a fresh lexer, as run by the
+   correspondence hook): every byte string; each loop iteration returns or strictly decreases
+   2*(len - current) + [codePoint <> eof] *)
+Theorem decoder_total_css_consumeEscape : total_on all_bytes run_escape.
+Proof. exact total_css_consumeEscape. Qed.
+Print Assumptions decoder_total_css_consumeEscape.
+Theorem decoder_total_css_consumeString : total_on all_bytes run_string.
+Proof. exact total_css_consumeString. Qed.
+Print Assumptions decoder_total_css_consumeString.
+Theorem decoder_total_css_consumeURL : total_on all_bytes run_url.
+Proof. exact total_css_consumeURL. Qed.
+Print Assumptions decoder_total_css_consumeURL.
+Theorem decoder_total_css_consumeName : total_on all_bytes run_name.
+Proof. exact total_css_consumeName. Qed.
+Print Assumptions decoder_total_css_consumeName.
 
 (* js_lexer.decodeJSXEntities (JSX text and attribute strings) with the guard "length > 0" in front of
    entity[0]: every byte string, every entity table *)
